@@ -9,7 +9,7 @@ import Mathlib.Tactic
 * `prepare_inv`: the index list of `reps` is `desired r v.slots`; every entry of `reps` is a pod of the snapshot with that
   ordinal or the fresh object `newPod`; `condemned` is, up to order, the pods of the snapshot whose ordinal is `≥ 0` and
   not desired, and it is sorted by ordinal. -/
-namespace Asts
+namespace Asts.L1b
 open List
 
 /-! ### generic list facts -/
@@ -93,15 +93,15 @@ theorem rel_last_of_pairwise {α : Type} {R : α → α → Prop} {l : List α} 
 
 /-! ### snapshots -/
 
-theorem Pod.healthy_iff (p : Pod) :
+theorem _root_.Asts.Pod.healthy_iff (p : Pod) :
     p.healthy = true ↔ p.phase = .running ∧ p.ready = true ∧ p.terminating = false := by
   simp [Pod.healthy, Pod.runningAndReady, and_assoc]
 
-theorem Pod.healthy_created {p : Pod} (h : p.healthy = true) : p.created = true := by
+theorem _root_.Asts.Pod.healthy_created {p : Pod} (h : p.healthy = true) : p.created = true := by
   rw [Pod.healthy_iff] at h
   simp [Pod.created, h.1]
 
-theorem Pod.failed_created {p : Pod} (h : (p.failed || p.succeeded) = true) : p.created = true := by
+theorem _root_.Asts.Pod.failed_created {p : Pod} (h : (p.failed || p.succeeded) = true) : p.created = true := by
   simp only [Pod.failed, Pod.succeeded, Bool.or_eq_true, beq_iff_eq] at h
   rcases h with h | h <;> simp [Pod.created, h]
 
@@ -308,4 +308,4 @@ theorem prepare_sorted {v : SetView} {cur upd : String} {pods : List Pod} {P : P
       rw [List.pairwise_map]
       exact (List.pairwise_lt_range).imp (fun h => by simpa using h)
 
-end Asts
+end Asts.L1b
